@@ -37,6 +37,17 @@ CHECKS.update({
             "text": "Generated series of length 3-2000 in seven shapes and six scales, lambda over ten decades: cycle+trend=series, "
                     "the HP optimality condition, definitions of the three derived filters, finiteness of the 18 moments.",
             "note": "residual tolerance scales with (1+16*lambda); log filters on positive series only."},
+    "C07": {"category": "exploration", "technique": PBT + " differential against independent pure-Python reference implementations of each loss definition",
+            "text": "Each built-in loss (all options, filters, weights, ensembles) is compared with a reference written from the "
+                    "documented definition (naive DFT, tuple-based GSL words, explicit kernel sums, hand-written 18 moments). "
+                    "Rediscovered the Minkowski filter defect (fixed) and the GSL base-10 word-packing collision (known finding, "
+                    "classified by a second reference that differs only in word identity, so any other deviation still fails).",
+            "note": "tolerance 1e-9 relative; ill-conditioned MSM inputs excluded and counted; GSL word lengths <= 18."},
+    "C08": {"category": "exploration", "technique": PBT + " with metamorphic relations (weight linearity, permutations, purity, fresh-vs-used object)",
+            "text": "Nine loss kinds (five built-ins, four user-defined stubs on BaseLoss) x relations: inputs unchanged, used == fresh "
+                    "object, weighted sum of single-coordinate losses, zero weight, coordinate and ensemble permutations, "
+                    "non-negativity, zero at equality, ValueError on wrong-length weights/filters.",
+            "note": "LikelihoodLoss exempt from weight clauses as documented; tolerance for summation-order changes."},
 })
 NOT_APPLICABLE = {p: "check not built yet in this session (design in DESIGN.md section 3); will be claimed once its harness exists"
                   for p in ALL if p not in CHECKS}
